@@ -132,7 +132,8 @@ impl T {
 		if self.primary() && o.primary() && sum_is_exact(self.v, o.v, v) {
 			return T::new(v, DERIVED_EXACT);
 		}
-		T::new(v, self.e + o.e + U * v.abs() + ETA)
+		// (a sum that lands in the subnormal range is exact: no η here)
+		T::new(v, self.e + o.e + U * v.abs())
 	}
 	#[inline]
 	pub fn sub(self, o: T) -> T {
@@ -140,7 +141,7 @@ impl T {
 		if self.primary() && o.primary() && sum_is_exact(self.v, -o.v, v) {
 			return T::new(v, DERIVED_EXACT);
 		}
-		T::new(v, self.e + o.e + U * v.abs() + ETA)
+		T::new(v, self.e + o.e + U * v.abs())
 	}
 	#[inline]
 	pub fn neg(self) -> T {
@@ -149,13 +150,16 @@ impl T {
 	#[inline]
 	pub fn mul(self, o: T) -> T {
 		let v = self.v * o.v;
-		T::new(v, self.v.abs() * o.e + o.v.abs() * self.e + self.e * o.e + U * v.abs() + ETA)
+		// η: a product may underflow; a product with an exactly known zero is an exact zero
+		let eta = if self.v == 0.0 || o.v == 0.0 { 0.0 } else { ETA };
+		T::new(v, self.v.abs() * o.e + o.v.abs() * self.e + self.e * o.e + U * v.abs() + eta)
 	}
 	/// multiplication by a constant (the constant itself may carry one rounding, e.g. a stored reciprocal)
 	#[inline]
 	pub fn scale(self, c: f64) -> T {
 		let v = self.v * c;
-		T::new(v, c.abs() * self.e + 2.0 * U * v.abs() + ETA)
+		let eta = if self.v == 0.0 || c == 0.0 { 0.0 } else { ETA };
+		T::new(v, c.abs() * self.e + 2.0 * U * v.abs() + eta)
 	}
 	#[inline]
 	pub fn div(self, o: T) -> T {
@@ -163,7 +167,8 @@ impl T {
 			return T::UND;
 		}
 		let q = self.v / o.v;
-		T::new(q, (self.e + q.abs() * o.e) / (o.v.abs() - o.e) + U * q.abs() + ETA)
+		let eta = if self.v == 0.0 { 0.0 } else { ETA };
+		T::new(q, (self.e + q.abs() * o.e) / (o.v.abs() - o.e) + U * q.abs() + eta)
 	}
 	#[inline]
 	pub fn abs(self) -> T {
